@@ -95,7 +95,7 @@ def time_indices(npts, dt, start, end, index):
     :param index: bool, optional, if False then start and end are considered values in time.
     :return: tuple, start index, end index
     """
-    if index is False:  # Convert time values into indices
+    if not index:  # Convert time values into indices (any false flag: False, np.False_, 0)
         if end != -1:
             e_index = int(end / dt) + 1
         else:
